@@ -17,6 +17,7 @@ THEOREMS = [
     "Mesa.Legacy.C09_hex_touching_symmetric",
     "Mesa.Legacy.C09_hex_cells_in_grid",
     "Mesa.Legacy.C09_hex_tables_are_hexagonal",
+    "Mesa.Legacy.C09_cached_neighbors_with_moves",
     "Mesa.Legacy.C09_hex_get_neighbors_exact",
     "Mesa.Legacy.C09_neighbors_spec",
     "Mesa.Legacy.C09_get_neighbors_exact",
